@@ -7,7 +7,19 @@ AllOps == {"Negative", "Absolute", "Sign", "Reciprocal", "LogicalNot", "Multiply
 \* the structural constructors that carry the swap rules of the simplifier
 CoreOps == {"InsertAxis", "Transpose", "Sum", "Multiply", "Add", "Take", "TakeDiag", "Diagonalize", "Inflate",
             "Ravel", "Unravel", "Power", "Sign", "LoopSum", "Absolute", "Negative", "Choose"}
-AllLeaves == 1..Len(LeafPool)
+\* AllOps / AllLeaves: the base vocabulary (bool/int/float) that the standard corpus enumerates; the extended
+\* vocabulary (complex dtype, ...) lives in dedicated families built from the sets below
+AllLeaves == 1..40
+CxOps == {"FloatToComplex", "Real", "Imag", "Conjugate"}
+CxLeaves == 41..52
+PolyOps == {"Polyval", "PolyMul", "PolyGrad", "PolyDegree", "PolyNCoeffs", "Legendre"}
+SearchOps == {"SearchSorted", "ArgSort", "UniqueMask", "UniqueInverse", "SizesToOffsets", "CompressIndices", "Find"}
+DynOps == {"RangeN", "InsertAxisN"}
+FullOps == AllOps \cup CxOps \cup {"Einsum"} \cup PolyOps \cup SearchOps \cup DynOps
+FullLeaves == 1..Len(LeafPool)
 CoreLeaves == {1, 2, 7, 8, 9, 10, 12, 13, 14, 15, 20, 22, 25}
 Fam(ops, leaves, maxnodes, maxops, maxleaves) == [ops |-> ops, leaves |-> leaves, maxnodes |-> maxnodes, maxops |-> maxops, maxleaves |-> maxleaves]
+\* vocabularies of the stand-alone configurations ExprBuilder_d2.cfg / ExprBuilder_sim.cfg
+D2Families == << Fam(AllOps, AllLeaves, 5, 2, 3) >>
+SimFamilies == << Fam(FullOps, FullLeaves, 12, 7, 5) >>
 ====
